@@ -8,6 +8,8 @@ from vlib.pyround import to_quantum
 
 PID = 'C18'
 PROPERTY_FILE = 'Properties/C18.v'
+# generated model parts (translate/) this property's model / proofs really depend on
+GEN_DEPS = ['QuantityImpl']
 MODEL_TARGETS = ['Corr/TextCorr.vo']
 PROOF_TARGETS = ['Proofs/C18Proofs.vo']
 COQ_CHECK = 't_check'
